@@ -163,7 +163,7 @@ PROPS = {
         "design_ref": "DESIGN.md §3.13, §4 C11",
     },
     "C19": {
-        "rules": ["ANNOTONLY", "PREDSONLY", "PREDSCOPE", "CONDSPEC", "PEVAL", "READKINDS", "CHILDREN", "TRAV@C19", "TRAVBASE", "NOPROV", "EXH"],
+        "rules": ["ANNOTONLY", "PREDSONLY", "PREDSCOPE", "CONDSPEC", "PEVAL", "READKINDS", "CHILDREN", "TRAV@C19", "TRAVBASE", "NOPROV", "EXH", "ALGID"],
         "thorough": [],
         "technique": "static analysis: written-field sets of the annotation primitives, constructor-argument identity for add_assertion, substitution/traversal completeness for partial_eval",
         "level_text": "Structural clauses: set_precision/set_memory/set_window, parallelize_loop, rename and make_instr write only annotation fields (type/mem/is_window/src_type/as_tensor, loop_mode, "
